@@ -2,12 +2,14 @@
 from vlib.core import core_check
 
 OPTS = [dict(), dict(p_validate=0.6, p_enable=0.5), dict(p_nested=0.35, p_rel=0.8), dict(sched='rr', nested=False, rdep_rel=False, p_validate=0.4),
+        # nested bodies / ready-dependent orderings reached only through wrapper methods
+        dict(p_nested=0.5, max_m=4, max_t=3, p_rel=0.6, p_struct=0.3, _weight=2),
         # validation of arguments that were forwarded down a call chain
         dict(p_fwdarg=0.9, p_validate=0.7, p_enable=0.3, max_m=4, max_t=3, p_nonexcl=0.05, p_struct=0.3, _weight=2)]
 
 
 def run(rep):
-    core_check(rep, "C03", [dict(o) for o in OPTS], 80, 2000, nontrivial_key="impl_designs_built")
+    core_check(rep, "C03", [dict(o) for o in OPTS], 96, 2400, nontrivial_key="impl_designs_built")
     rep.coverage["rule"] = ("random designs from vlib/coregen.py's grammar built with the real API, every valuation of the "
                             "control inputs (or random ones when there are many), both directions bound by TxnCoreTrace; "
                             "clause RunImpliesEnabled (readiness of the whole static call tree, validation of would-be-active calls, run of ready-dependencies); distinct_nontrivial = built designs")
